@@ -6,9 +6,10 @@
    returns the final position, the number of boxes, the bytes retained in content-box buffers (the
    allocation counter) and the deepest superbox level.  Executable Gallina, no proofs.
 
-   [strict] is the reader with the proposed repair of read_header (a 1..7-byte header read is an error);
-   [cadd] is the reader with `start_pos.checked_add(size)` for dest_pos; the code as it stands is
-   [strict = false], [cadd = false] (Generated.C10_facts.SHORT_HEADER_IS_ERROR, DEST_POS_IS_CHECKED).
+   [strict] is the reader whose read_header fills the 8-byte array and reports a 1..7-byte header as an error
+   (the loop added by commit 7b268693b; on a Cursor one read returns everything that is left);
+   [cadd] is the reader with `start_pos.checked_add(size)` for dest_pos.  Both are regenerated from the source
+   (Generated.C10_facts.SHORT_HEADER_IS_ERROR, DEST_POS_IS_CHECKED): true since 7b268693b, false before.
    [dbg] is the build profile (overflow checks). *)
 From Coq Require Import List NArith Bool.
 From C2PA Require Import Base.Bytes Generated.C10_facts Model.C10Mach.
